@@ -102,6 +102,7 @@ func NewParser(srcPath, dstPath string) (*Parser, error) {
 		return nil, logger.Errorf("%v: %v", srcPath, parseErr)
 	}
 	imports := util.NewImportNames(fileSrc.Imports)
+	imports.SetLocal(pkgs[0].PkgPath)
 	// The name of a package is not necessarily the last element of its import path
 	// (e.g. "example.com/lib/v2" declaring "package lib"); prefer the loaded name.
 	for _, spec := range fileSrc.Imports {
